@@ -23,10 +23,12 @@ def configs(tier, seed):
             if not trials.admitted(kind, n, na, nb):
                 continue
             variants = [""]
-            if kind in ("rhf", "ghf", "ghf_cpmc"):
+            if kind in ("ghf", "ghf_cpmc"):
                 variants = ["", "nonorth"]
+            if kind == "rhf":
+                variants = ["", "nonorth", "complex"]
             if kind in ("uhf", "uhf_cpmc"):
-                variants = ["same", "", "nonorth"]
+                variants = ["same", "", "nonorth"] + (["complex_same", "complex"] if kind == "uhf" else [])
             if kind == "noci":
                 variants = ["", "3det", "nonorth"] if thorough else ["", "nonorth"]
             if kind == "multislater":
